@@ -154,7 +154,7 @@ func ruleC14(p *Prog, r *Result) {
 			ok := s.Op == "append" && s.Args[0].String() == res.String() && s.Args[1].Op == "lit" && len(s.Args[1].Args) == 1
 			if ok {
 				f := s.Args[1].Args[0]
-				ok = f.Op == "call" && f.Name == "fmt.Sprintf" && mStr("%s%s")(f.Args[0]) && f.Args[1].Op == "lit" && len(f.Args[1].Args) == 2 && partN("1")(f.Args[1].Args[0]) && f.Args[1].Args[1].Op == "elem"
+				ok = mConcat(partN("1"), func(x *T) bool { return x.Op == "elem" })(f)
 			}
 			if !ok {
 				return false, "an item is not rendered as prefix followed by the item: " + s.String()
@@ -595,7 +595,7 @@ func ruleC12Docs(p *Prog, r *Result) {
 				return false, "the context expanded is not the one at the same position as the document"
 			}
 			nm := e.Args[2]
-			if !(nm.Op == "call" && nm.Name == "fmt.Sprintf" && mStr("$repeat:%s")(nm.Args[0]) && nm.Args[1].Op == "lit" && mKeyOf(rsP)(nm.Args[1].Args[0])) {
+			if !mConcat(mStr("$repeat:"), mKeyOf(rsP))(nm) {
 				return false, "the variable bound is not $repeat:<name>: " + nm.String()
 			}
 			if _, sorted := sortedKeyOf(nm.Args[1].Args[0]); !sorted {
@@ -850,7 +850,7 @@ func ruleC13Vars(p *Prog, r *Result) {
 		for _, e := range pa.Effects {
 			if e.Kind == "mapset" {
 				k := e.Args[1]
-				if k.Op == "call" && k.Name == "fmt.Sprintf" && mStr("$env:%s")(k.Args[0]) {
+				if mConcat(mStr("$env:"), mAny())(k) {
 					return true, ""
 				}
 				return false, "the key is " + k.String()
